@@ -1,5 +1,5 @@
 \* intended state graph (one state per library, every request a self loop); every transition logged (TR)
-CONSTANTS CopyOnLookup = TRUE SympyCopies = TRUE LibIds = {1,2,3,4,5,6,7,8,9} MaxReq = 1000000
+CONSTANTS CopyOnLookup = TRUE SympyCopies = TRUE LibIds = {1,2,3,4,5,6,7,8,9,10,11} MaxReq = 1000000
           Backends = {"flatten","casadi","sympy","xml"}
 INIT Init
 NEXT Next
